@@ -101,6 +101,7 @@ type Term struct {
 	Args []*Term
 	S    *Sort
 	id   int
+	h    uint64 // structural hash: independent of creation order (ids depend on goroutine scheduling)
 	// binder info for quantifiers
 	Vars []*Term
 }
@@ -124,9 +125,34 @@ func mk(op string, s *Sort, args ...*Term) *Term {
 		return t
 	}
 	termCount++
-	t := &Term{Op: op, Args: args, S: s, id: termCount}
+	h := uint64(14695981039346656037)
+	mix := func(b byte) { h = (h ^ uint64(b)) * 1099511628211 }
+	for i := 0; i < len(op); i++ {
+		mix(op[i])
+	}
+	mix('|')
+	for i := 0; i < len(s.Name); i++ {
+		mix(s.Name[i])
+	}
+	for _, a := range args {
+		mix(',')
+		x := a.h
+		for i := 0; i < 8; i++ {
+			mix(byte(x))
+			x >>= 8
+		}
+	}
+	t := &Term{Op: op, Args: args, S: s, id: termCount, h: h}
 	termTab[k] = t
 	return t
+}
+
+// termLess is a total order on terms that does not depend on the order in which they were created.
+func termLess(a, b *Term) bool {
+	if a.h != b.h {
+		return a.h < b.h
+	}
+	return a.id < b.id
 }
 
 // leaves
@@ -326,7 +352,7 @@ func Eq(a, b *Term) *Term {
 	if isAllocConst(a) && isAllocConst(b) {
 		return False
 	}
-	if a.id > b.id {
+	if termLess(b, a) {
 		a, b = b, a
 	}
 	return mk("=", SBool, a, b)
@@ -430,7 +456,7 @@ func Prod(fs []*Term) *Term {
 		}
 		flat = append(flat, prodFactors(f)...)
 	}
-	sort.Slice(flat, func(i, j int) bool { return flat[i].id < flat[j].id })
+	sort.Slice(flat, func(i, j int) bool { return termLess(flat[i], flat[j]) })
 	var t *Term
 	switch len(flat) {
 	case 0:
